@@ -68,6 +68,13 @@ def cases(tier, rng):
                     "attach d PUB", "wire a", "wire b", "wire c", "wire d"]
                 out.append("f%d.%s sock SUB / %s" % (k, bad, " / ".join(ops)))
                 k += 1
+    # topics whose subscription message sits on the short/long frame boundary (topic of 254 / 255 / 256 bytes)
+    for tl in (253, 254, 255, 256):
+        topic = W.tok(bytes([0x41 + (tl + i) % 23 for i in range(tl)]))
+        for ops in (["attach a PUB", "sub " + topic, "attach b PUB", "wire a", "wire b"],
+                    ["attach a PUB", "sub " + topic, "sub 42", "unsub " + topic, "attach b PUB", "wire a", "wire b"]):
+            out.append("m%d sock SUB / %s" % (k, " / ".join(ops)))
+            k += 1
     # two publishers announcing the same identity: the one connected last is the peer; it must be told every update
     for idl in (1, 16):
         ident = W.tok(b"P" * idl)
